@@ -450,7 +450,15 @@ impl TypeContext {
                     continue;
                 }
 
-                if !use_longer_lifetimes.contains(&corresponding_use) {
+                // The bound may also hold transitively ('a: 'b, 'b: 'c gives 'a: 'c): the AST only
+                // records a type's implied bounds as direct edges when the declared bounds do not
+                // already entail them, and the borrow analysis works on the transitive closure too.
+                let entailed = use_longer_lifetimes.contains(&corresponding_use)
+                    || method
+                        .lifetime_env
+                        .all_longer_lifetimes(use_lt)
+                        .any(|lt| lt == corresponding_use);
+                if !entailed {
                     let use_name = method.lifetime_env.fmt_lifetime(use_lt);
                     let use_longer_name = method.lifetime_env.fmt_lifetime(corresponding_use);
                     let def_cause = if let Some(def_lt) = def_lt {
